@@ -11,7 +11,15 @@
       runs it: `rxFireTake` / `rxFireFlush`, or the `whenFlushed` / `whenEmpty` label itself on the immediate
       path; there `ds` is skipped — a Sender cannot be dropped inside its own method). This exercises the
       interleavings in which sender steps land between the swap-out of a batch and its hand-over, between two
-      callbacks, and between the last callback of an empty hand-off and the exit check. OP (interpreted in order) ::=
+      callbacks, and between the last callback of an empty hand-off and the exit check.
+      W ::= (n K SOP…) | (l K SOP…) | (v K SOP…): sender-side ops performed from INSIDE the K-th call (counted from 0
+      over the whole case) that `Receiver::exec` itself makes of the user-supplied `Channel::new` / `Channel::len` /
+      `Channel::with_capacity` (the harness runs the schedules on its own channel type). Where those calls are and
+      whether the state lock is held there is the model's `chanCallsAtStart` / `chanCallsIn` / `chanCallsAfter`: a
+      call outside the lock is a position between two receiver labels — the ops are sender labels executed there; a
+      call inside the critical section of the hand-off is part of the atomic step `rxTake` — nothing can run there,
+      the window prints `+held` (the harness does not assume this of the real code: it probes the lock).
+      OP (interpreted in order) ::=
         (s X) send | (t X) try_send | (f W) when_flushed | (e W) when_empty | (ds) drop Sender | (dr) drop Receiver
         (bs X) (bt X) (ba X)        sync::blocking_send / tokio::blocking_send / tokio::send (polled once) with a ZERO
                                     timeout: label `sendOrWaitFirst X` (try_send + queue_full_blocked accounting), then
@@ -122,9 +130,33 @@ structure Windows where
   calls : List (Nat × List SOp)
   waits : List (Nat × List SOp)
   cbs : List (Nat × List SOp)     -- sender ops performed from INSIDE the callback of watcher W (once)
+  chans : List ((Nat × Nat) × List SOp)   -- ((Channel method, K), ops): inside the K-th receiver-side call of it
 
-/-- Driver state: the model state and the watcher ids whose callback payload has already run. -/
-abbrev DS := BSt × List Nat
+/-- How many calls of `Channel::new` / `len` / `with_capacity` the receiver has made so far. -/
+structure ChanCnt where
+  nNew : Nat := 0
+  nLen : Nat := 0
+  nCap : Nat := 0
+  deriving Repr
+
+def ChanCnt.get (c : ChanCnt) : ChanCall → Nat
+  | .new => c.nNew
+  | .len => c.nLen
+  | .withCapacity => c.nCap
+
+def ChanCnt.bump (c : ChanCnt) : ChanCall → ChanCnt
+  | .new => { c with nNew := c.nNew + 1 }
+  | .len => { c with nLen := c.nLen + 1 }
+  | .withCapacity => { c with nCap := c.nCap + 1 }
+
+def chanCode : ChanCall → Nat
+  | .new => 0
+  | .len => 1
+  | .withCapacity => 2
+
+/-- Driver state: the model state, the watcher ids whose callback payload has already run, and the count of the
+    receiver's `Channel` calls. -/
+abbrev DS := BSt × List Nat × ChanCnt
 
 /-- The watcher whose callback ran inside this sender label (immediate path of when_flushed / when_empty). -/
 def firedNow (s s' : St) : Label → Option Nat
@@ -168,11 +200,11 @@ def senderOp (cfg : Cfg) (win : Windows) : Nat → Bool → DS → SOp → DS ×
     then `+<tag>`. -/
 def cbPayload (cfg : Cfg) (win : Windows) : Nat → Bool → DS → Nat → DS × List String
   | 0, _, ds, _ => (ds, ["fuel!"])
-  | fuel + 1, imm, (b, used), w =>
-    if used.contains w then ((b, used), [])
+  | fuel + 1, imm, (b, used, cc), w =>
+    if used.contains w then ((b, used, cc), [])
     else match win.cbs.lookup w with
-      | none => ((b, used), [])
-      | some ops => senderOps cfg win fuel imm (b, w :: used) ops []
+      | none => ((b, used, cc), [])
+      | some ops => senderOps cfg win fuel imm (b, w :: used, cc) ops []
 
 def senderOps (cfg : Cfg) (win : Windows) : Nat → Bool → DS → List SOp → List String → DS × List String
   | 0, _, ds, _, acc => (ds, acc ++ ["fuel!"])
@@ -181,6 +213,21 @@ def senderOps (cfg : Cfg) (win : Windows) : Nat → Bool → DS → List SOp →
     let (ds', tag, e) := senderOp cfg win fuel imm ds l
     senderOps cfg win fuel imm ds' ls (acc ++ e ++ [s!"+{tag}"])
 end
+
+/-- The receiver makes the `Channel` calls `sites` (in this order) at the current position. A call for which the
+    schedule has a window: under the lock nothing can be done from inside it (`+held`); outside the lock the
+    window's sender ops are sender labels executed right here. Every call is counted. -/
+def chanWindows (cfg : Cfg) (win : Windows) : DS → List ChanSite → List String → DS × List String
+  | ds, [], acc => (ds, acc)
+  | (b, used, cc), site :: rest, acc =>
+    let cc' := cc.bump site.call
+    match win.chans.lookup (chanCode site.call, cc.get site.call) with
+    | none => chanWindows cfg win (b, used, cc') rest acc
+    | some ops =>
+      if site.locked then chanWindows cfg win (b, used, cc') rest (acc ++ ["+held"])
+      else
+        let (ds', e) := senderOps cfg win 64 false (b, used, cc') ops []
+        chanWindows cfg win ds' rest (acc ++ e)
 
 /-- A receiver label with the window ops that the real code would execute inside it: if the label invokes
     `on_batch` (resp. `wait`) for the I-th (J-th) time and a window is scripted for that index, the window's
@@ -225,14 +272,17 @@ def advance (cfg : Cfg) (sp : List Nat) (win : Windows) : Nat → DS → List St
     match next with
     | none => ((b, used), evs)
     | some (l, cb) =>
-      match rxStep cfg win (b, used) l with
-      | none => ((b, used), evs ++ ["stuck!"])
+      -- the `Channel` calls at the start of the label (sender ops there do not touch what the label reads)
+      let (ds0, e0) := chanWindows cfg win (b, used) (chanCallsIn s l) []
+      match rxStep cfg win ds0 l with
+      | none => (ds0, evs ++ e0 ++ ["stuck!"])
       | some (ds', e) =>
-        match cb with
-        | none => advance cfg sp win fuel ds' (evs ++ e)
-        | some w =>
-          let (ds'', pe) := cbPayload cfg win 64 false ds' w
-          advance cfg sp win fuel ds'' (evs ++ e ++ pe)
+        let (ds'', pe) := match cb with
+          | none => (ds', [])
+          | some w => cbPayload cfg win 64 false ds' w
+        -- … and the one right after it (once the `when_empty` callbacks of the hand-off are through)
+        let (ds3, ce) := chanWindows cfg win ds'' (chanCallsAfter ds''.1.st l) []
+        advance cfg sp win fuel ds3 (evs ++ e0 ++ e ++ pe ++ ce)
 
 def tok (tag : String) (evs : List String) (b : BSt) : String :=
   ",".intercalate (tag :: evs) ++ s!"|{counters b}"
@@ -256,14 +306,18 @@ def runOp (cfg : Cfg) (sp : List Nat) (win : Windows) (ds : DS) : Op → DS × S
   | .poll =>
     match ds.1.st.rx with
     | .done => (ds, tok "x" [] ds.1)
-    | .idle => let (ds', e) := advance cfg sp win 400 ds []; (ds', tok "r" e ds'.1)
+    | .idle =>
+      -- first poll: `exec` starts (`Batch::new()` before the loop)
+      let (ds0, e0) := chanWindows cfg win ds chanCallsAtStart []
+      let (ds', e) := advance cfg sp win 400 ds0 e0; (ds', tok "r" e ds'.1)
     | _ => (ds, tok "r" [] ds.1)
   | .out o =>
     match ds.1.st.rx with
     | .processing _ _ _ =>
-      match rxStep cfg win ds (.rxOutcome o) with
+      let (ds0, e0) := chanWindows cfg win ds (chanCallsIn ds.1.st (.rxOutcome o)) []
+      match rxStep cfg win ds0 (.rxOutcome o) with
       | none => (ds, tok "x" [] ds.1)
-      | some (ds1, e1) => let (ds', e) := advance cfg sp win 400 ds1 e1; (ds', tok "r" e ds'.1)
+      | some (ds1, e1) => let (ds', e) := advance cfg sp win 400 ds1 (e0 ++ e1); (ds', tok "r" e ds'.1)
     | _ => (ds, tok "x" [] ds.1)
   | .waited =>
     match ds.1.st.rx with
@@ -282,19 +336,25 @@ def runOps (cfg : Cfg) (sp : List Nat) (win : Windows) : DS → List Op → List
   | ds, o :: os, acc => let (ds', t) := runOp cfg sp win ds o; runOps cfg sp win ds' os (t :: acc)
 
 /-- (kind, index or watcher id, sender ops): kind 0 = before the I-th on_batch call, 1 = before the J-th wait call,
-    2 = inside the callback of watcher W -/
+    2 = inside the callback of watcher W, 3 / 4 / 5 = inside the K-th receiver-side call of `Channel::new` / `len` /
+    `with_capacity` -/
 def window? : Sexp → Option (Nat × Nat × List SOp)
   | .list (.atom "c" :: i :: ops) => do pure (0, ← i.nat?, ← ops.mapM sop?)
   | .list (.atom "w" :: i :: ops) => do pure (1, ← i.nat?, ← ops.mapM sop?)
   | .list (.atom "cb" :: i :: ops) => do pure (2, ← i.nat?, ← ops.mapM sop?)
+  | .list (.atom "n" :: i :: ops) => do pure (3, ← i.nat?, ← ops.mapM sop?)
+  | .list (.atom "l" :: i :: ops) => do pure (4, ← i.nat?, ← ops.mapM sop?)
+  | .list (.atom "v" :: i :: ops) => do pure (5, ← i.nat?, ← ops.mapM sop?)
   | _ => none
 
 def windows? (ws : List Sexp) : Option Windows := do
   let l ← ws.mapM window?
   let pick (k : Nat) := (l.filter (·.1 == k)).map (·.2)
   -- an index / id may be given at most once per kind
-  if [0, 1, 2].any (fun k => ((pick k).map (·.1)).eraseDups.length != (pick k).length) then none
-  else pure ⟨pick 0, pick 1, pick 2⟩
+  if [0, 1, 2, 3, 4, 5].any (fun k => ((pick k).map (·.1)).eraseDups.length != (pick k).length) then none
+  else
+    let chan (k code : Nat) : List ((Nat × Nat) × List SOp) := (pick k).map fun (i, ops) => ((code, i), ops)
+    pure ⟨pick 0, pick 1, pick 2, chan 3 (chanCode .new) ++ chan 4 (chanCode .len) ++ chan 5 (chanCode .withCapacity)⟩
 
 def rxName (s : St) : String :=
   match s.rx with
@@ -356,11 +416,16 @@ def runBatcherProj (p : Proj) (line : String) : String :=
     match cap.nat?.filter (· ≥ 1), nats? sp, windows? ws, ops.mapM op? with
     | some cap, some sp, some win, some ops =>
       let cfg := Cfg.real cap
-      let ((b, used), toks) := runOps cfg sp win (binit, []) ops []
+      let ((b, used, cc), toks) := runOps cfg sp win (binit, [], {}) ops []
       let trace := toks ++ [finalTok b.st]
       let winHit := trace.any fun t => (t.splitOn ",+").length > 1
+      let heldHit := trace.any fun t => (t.splitOn ",+held").length > 1
+      -- a channel window was reached (every receiver-side call is counted; a window is used when its index is passed)
+      let chanHit := win.chans.any fun ((k, i), _) =>
+        i < (if k == chanCode .new then cc.nNew else if k == chanCode .len then cc.nLen else cc.nCap)
       " ".intercalate (trace.map (projectTok p)) ++ "\t" ++ signature b ops.length
         ++ (if winHit then ",win" else "") ++ (if used.isEmpty then "" else ",cb")
+        ++ (if chanHit then ",chan" else "") ++ (if heldHit then ",held" else "")
     | _, _, _, _ => "bad-op"
   | _ => "bad-op"
 
@@ -429,6 +494,19 @@ def runBlocking (line : String) : String :=
           s!"{f1},{f2}\tseq,{pathName (blockingPath api ctx)},sound={sound}"
         | none => "blocked\tseq"
     | _, _ => "bad-op"
+  | some (.list [.atom "blslow", api, d, timeout, n, cap]) =>
+    -- a processor whose single attempt takes D behind `tokio::spawn`, a flush requested meanwhile: the duration is
+    -- not an input of the model (no label carries one) — `true`, with every item through its final attempt both when
+    -- the batch's watchers were notified and when the flush returned (C07.flush_sound on the final state)
+    match api? api, d.nat?, timeout.nat?, n.nat?, cap.nat?.filter (· ≥ 1) with
+    | some _, some d, some timeout, some n, some cap =>
+      if n = 0 ∨ n > cap ∨ cap > 64 ∨ d > 3600000 ∨ timeout < 10000 ∨ timeout > 600000 then "bad-op"
+      else match slowFlush (Cfg.real cap) n .ok timeout with
+        | some (r, atNotify, atReturn, s) =>
+          let sound := (List.range n).all fun i => s.finalised.contains (i + 1)
+          s!"{r},{atNotify},{atReturn}\tslow,d={if d > 30000 then "long" else "short"},sound={sound}"
+        | none => "blocked\tslow"
+    | _, _, _, _, _ => "bad-op"
   | some (.list [.atom "bl", api, .atom op, ctx, rx, cap, prefill, timeout]) =>
     match api? api, ctx? ctx, rxKind? rx, cap.nat?.filter (· ≥ 1), prefill.nat?, timeout? timeout with
     | some api, some ctx, some rx, some cap, some prefill, some timeout =>
